@@ -41,7 +41,38 @@ def _ports_forms(U):
     return forms
 
 
+_CLB = {}
+
+
+def checker_lower_bounds(g):
+    """{parameter index: c} when g fails (returns -1) whenever that parameter is below c: a top-level
+    `if (p < c) { ...; return -1; }` (or `p <= c-1`) in g"""
+    k = g.key()
+    if k in _CLB:
+        return _CLB[k]
+    out = {}
+    pidx = {p["decl"]: i for i, p in enumerate(g.params)}
+    for st in (g.body.kids if g.body is not None else []):
+        if st is None or st.k != "IfStmt":
+            continue
+        kids = [z for z in st.kids if z is not None]
+        if len(kids) != 2:
+            continue
+        last = kids[1].kids[-1] if kids[1].k == "CompoundStmt" and kids[1].kids else kids[1]
+        if last is None or last.k != "ReturnStmt" or not last.kids or last.kids[0].strip().cv != -1:
+            continue
+        c = kids[0].strip()
+        if c.k == "BinaryOperator" and c.op in ("<", "<="):
+            a, b = c.kids[0].strip(), c.kids[1].strip()
+            if a.k == "DeclRefExpr" and a.refdecl in pidx and b.cv is not None:
+                out[pidx[a.refdecl]] = b.cv if c.op == "<" else b.cv + 1
+    _CLB[k] = out
+    return out
+
+
 class RangeTracker(Tracker):
+    P = None
+
     def __init__(self, fn, canon, targets):
         self.fn = fn
         self.cn = canon
@@ -89,6 +120,20 @@ class RangeTracker(Tracker):
             return st
         a, b = c.kids[0].strip(), c.kids[1].strip()
         op = c.op
+        # success edge of a checker: `if (validate(.., p, ..) == -1) return -1;` where the callee refuses p < 0
+        if a.k == "CallExpr" and b.cv == -1 and op in ("==", "!=") and self.P is not None:
+            success = (op == "==" and not truth) or (op == "!=" and truth)
+            if success:
+                g = self.P.resolve_call(a, self.fn)
+                if g is not None and g.body is not None:
+                    lows = checker_lower_bounds(g)
+                    facts = set(st)
+                    for i, x in enumerate(a.args()):
+                        x = x.strip()
+                        if x.k == "DeclRefExpr" and x.refdecl in self.params and i in lows:
+                            facts.add((x.refdecl, "ge", lows[i]))
+                    return frozenset(facts)
+            return st
         if not (a.k == "DeclRefExpr" and a.refdecl in self.params):
             if b.k == "DeclRefExpr" and b.refdecl in self.params:
                 a, b = b, a
@@ -139,6 +184,7 @@ def run(P, tier="quick"):
                    "on every path by guards establishing 0 <= index < paired extent of the same object; `index > extent` "
                    "guards (accepting index n) are reported", floor=20)
     nsub = 0
+    RangeTracker.P = P
     for f in P.all_functions():
         if f.cfg is None:
             continue
